@@ -1,11 +1,12 @@
 // ---- the wrapper invariant: the wrapper's own maps agree with the core policy set ----
-/// `policies` lists exactly the core set's links (static policies and template-linked policies), `templates` exactly the
-/// core templates that are not the template half of a static policy, and each entry is the core object under the same id
+/// `policies` lists exactly the core set's links (static policies and template-linked policies); every entry of `templates` is a core
+/// template that is not the template half of a static policy (the core may hold further templates: a slot-less entry of the
+/// `templates` section of a JSON / protobuf policy set is kept by the core only); each entry is the core object under the same id
 pub open spec fn winv(s: PolicySet) -> bool {
     let t = s.ast.vt(); let l = s.ast.vl();
     &&& ast::inv(s.ast)
     &&& forall|k: PolicyId| #[trigger] s.policies@.contains_key(k) <==> l.contains_key(k.0)
-    &&& forall|k: PolicyId| #[trigger] s.templates@.contains_key(k) <==> t.contains_key(k.0) && !l.contains_key(k.0)
+    &&& forall|k: PolicyId| #[trigger] s.templates@.contains_key(k) ==> t.contains_key(k.0) && !l.contains_key(k.0)
     &&& forall|k: PolicyId| #[trigger] s.policies@.contains_key(k) ==> s.policies@[k].ast == l[k.0]
     &&& forall|k: PolicyId| #[trigger] s.templates@.contains_key(k) ==> s.templates@[k].ast == *t[k.0] && t[k.0].spec_has_slots()
 }
